@@ -11,8 +11,12 @@
 //	owner <hex>/<len>     => s3 | none
 //	stats                 => <allocated> <total>
 //	util                  => <kind> <allocated> <total>   DistributedStats.Utilization: zero | ratio | percent | nan | other
-//	restart <seed>        => ok      abandon the instance (crash), new instance over the same store, Start();
-//	                                 Query enumerates the sorted keys permuted by the Lehmer code of <seed>
+//	restart <seed> [<q>]  => ok | error   abandon the instance (crash), new instance over the same store, Start();
+//	                                 Query enumerates the sorted keys permuted by the Lehmer code of <seed>; <q> = 1: the
+//	                                 Query of the load step fails once — `error` = Start refused, the node is DOWN: every
+//	                                 operation answers `down` until the next restart
+//	The store echoes every successful Delete the allocator issues to the watch callback (as nexus.MemoryStore does for a
+//	node's own writes), delivered right after the operation that caused it.
 //	tick <seed> <q>       => <epoch> lease mode: AdvanceEpoch + cleanupExpiredFromStore (<q> = 1: its Query fails)
 //	tickrace <seed> s3    => <epoch> <answer of Allocate(s3)>   lease mode: one epochLoop iteration during which another
 //	                                 goroutine calls Allocate(s3) at the moment the store cleanup issues its first Delete
@@ -63,6 +67,8 @@ type store struct {
 	cb    func(key string, value []byte, deleted bool)
 	// beforeDelete, when set, runs once just before the next Delete takes effect
 	beforeDelete func()
+	// keys deleted through Delete whose watch notification is still to be delivered
+	echo []string
 }
 
 var errInjected = errors.New("injected store failure")
@@ -104,6 +110,7 @@ func (s *store) Delete(ctx context.Context, key string) error {
 		return errInjected
 	}
 	delete(s.data, key)
+	s.echo = append(s.echo, key)
 	return nil
 }
 
@@ -266,6 +273,9 @@ func (g geo) randOp(r *rand.Rand, subs int) string {
 	case x < 53:
 		return "util"
 	case x < 62:
+		if r.Intn(6) == 0 {
+			return fmt.Sprintf("restart %d 1", r.Intn(720))
+		}
 		return fmt.Sprintf("restart %d", r.Intn(720))
 	case x < 71:
 		if g.mode == "lease" {
@@ -353,7 +363,7 @@ func (comp) Gen(r *rand.Rand, tier string, emit func([]string)) {
 	for i := 0; i < n/10; i++ {
 		g := geos[5+r.Intn(3)]
 		subs := 2 + r.Intn(3)
-		seq := []string{g.newOp(subs)}
+		seq := []string{g.newOp(subs + 2)}
 		for k := 1; k <= subs; k++ {
 			seq = append(seq, fmt.Sprintf("alloc s%d 0", k))
 		}
@@ -371,7 +381,21 @@ func (comp) Gen(r *rand.Rand, tier string, emit func([]string)) {
 			}
 			seq = append(seq, "audit")
 		}
-		seq = append(seq, fmt.Sprintf("restart %d", r.Intn(24)), "audit", "alloc s1 0", "audit")
+		// a newcomer asks right after the ticks: it must not be given the address of a lease that was kept alive
+		seq = append(seq, fmt.Sprintf("alloc s%d 0", subs+1), "audit")
+		seq = append(seq, fmt.Sprintf("restart %d", r.Intn(24)), "audit", "alloc s1 0", fmt.Sprintf("alloc s%d 0", subs+2), "audit")
+		emit(seq)
+	}
+	// restart on a store that holds records with the load Query failing: the node must not come up empty
+	for i := 0; i < n/16; i++ {
+		g := geos[r.Intn(len(geos))]
+		subs := 2 + r.Intn(3)
+		seq := []string{g.newOp(subs + 1)}
+		for k := 1; k <= subs; k++ {
+			seq = append(seq, fmt.Sprintf("alloc s%d 0", k))
+		}
+		seq = append(seq, "audit", fmt.Sprintf("restart %d 1", r.Intn(24)), "audit", fmt.Sprintf("alloc s%d 0", subs+1), "get s1", "audit",
+			fmt.Sprintf("restart %d", r.Intn(24)), "audit")
 		emit(seq)
 	}
 	for i := 0; i < 10; i++ {
@@ -492,6 +516,8 @@ type run struct {
 	st     *store
 	da     *allocator.DistributedAllocator
 	cancel context.CancelFunc
+	// Start refused (load Query failed): the node is not serving
+	down bool
 	// round-trip sequences
 	rt *rtRun
 }
@@ -515,10 +541,14 @@ func classify(err error) string {
 	return "error"
 }
 
-func (r *run) start(seed uint64) string {
+func (r *run) start(seed uint64, queryFails bool) string {
 	if r.cancel != nil {
 		r.cancel()
 	}
+	// the old instance is gone: nobody watches until the new one has started
+	r.st.cb = nil
+	r.st.echo = nil
+	r.down = false
 	cfg := allocator.DistributedConfig{
 		PoolID:      "p",
 		BaseNetwork: fmt.Sprintf("%s/%d", ipOf(r.g.baseNum(), r.g.fam).String(), r.g.ones),
@@ -537,10 +567,17 @@ func (r *run) start(seed uint64) string {
 	r.cancel = cancel
 	r.st.seed = seed
 	r.st.fails = nil
-	if err := da.Start(ctx); err != nil {
+	if queryFails {
+		r.st.fails = []bool{true}
+	}
+	err = da.Start(ctx)
+	r.st.fails = nil
+	r.da = da
+	if err != nil {
+		r.down = true
+		r.st.cb = nil
 		return "error"
 	}
-	r.da = da
 	return "ok"
 }
 
@@ -594,6 +631,21 @@ func (r *run) getTok(sub string) string {
 }
 
 func (r *run) Do(op string) string {
+	obs := r.do(op)
+	// deliver the store's delete notifications of this operation to the watching instance
+	if r.st != nil {
+		for len(r.st.echo) > 0 {
+			key := r.st.echo[0]
+			r.st.echo = r.st.echo[1:]
+			if r.st.cb != nil && !r.down {
+				r.st.cb(key, nil, true)
+			}
+		}
+	}
+	return obs
+}
+
+func (r *run) do(op string) string {
 	f := hx.Fields(op)
 	ctx := context.Background()
 	if f[0] == "newrt" {
@@ -619,10 +671,13 @@ func (r *run) Do(op string) string {
 		r.g = geo{f[1], fam, ipOf(base, fam).String(), ones, pl, grace}
 		r.nsubs = ns
 		r.st = &store{data: map[string][]byte{}}
-		return r.start(0)
+		return r.start(0, false)
 	}
 	if r.da == nil {
 		return "badop"
+	}
+	if r.down && f[0] != "restart" {
+		return "down"
 	}
 	switch f[0] {
 	case "alloc":
@@ -666,7 +721,7 @@ func (r *run) Do(op string) string {
 		return fmt.Sprintf("%s %d %d", hx.UtilKind(uint64(st.Allocated), uint64(st.Total), st.Utilization), st.Allocated, st.Total)
 	case "restart":
 		seed, _ := strconv.ParseUint(f[1], 10, 64)
-		return r.start(seed)
+		return r.start(seed, len(f) > 2 && f[2] == "1")
 	case "tick":
 		seed, _ := strconv.ParseUint(f[1], 10, 64)
 		r.st.seed = seed
